@@ -219,7 +219,7 @@ def main():
         "engines": [
             {"name": "direct", "path": "vt/run.py", "serves_properties": [c["property_id"] for c in checks], "kind_free_text": "runner: Hypothesis / exhaustive enumeration / atheris campaigns driving the real code, sharded over 16 processes; every reported failure is re-executed from its replay file in a fresh interpreter"},
             {"name": "simsched", "path": "vt/simsched.py", "serves_properties": ["C01", "C02", "C03", "C06", "C09", "C14", "C19"], "kind_free_text": "Engine A: deterministic in-process simulation of multiprocessing Queue/Event/Process; scheduler driven by a generated choice sequence, priority policy, slow-process windows; feeder flushes and time-outs are schedulable; structural hang detection"},
-            {"name": "gated", "path": "vt/gated.py", "serves_properties": ["C10"], "kind_free_text": "Engine B: real forked processes + real filelock; lock attempt / read / write start / write middle / release are gates opened by the controller in a generated order"},
+            {"name": "gated", "path": "vt/gated.py", "serves_properties": ["C10"], "kind_free_text": "Engine B: real forked processes + real filelock; lock attempt / read / write start / write middle / release / after-release, and every file-system call the pyramid module itself makes during a read-modify-write, are gates opened by the controller in a generated order; optional injected failure of one lock-marker creation"},
             {"name": "realmp", "path": "vt/checks (parts whose engine starts with 'R (')", "serves_properties": ["C02", "C06", "C09", "C14"], "kind_free_text": "Engine R: the public entry point on real multiprocessing (2-4 workers); validates Engine A's verdicts on samples; replays tried 5 times"},
             {"name": "fuzz", "path": "vt/fuzzshard.py", "serves_properties": ["C13"], "kind_free_text": "coverage-guided fuzzing (atheris/libFuzzer) with the semantic oracle inside the target"},
         ],
